@@ -1,0 +1,109 @@
+//go:build verif
+
+package rpc
+
+// Contracts for the verification framework in /verif (comment-only file; it
+// contains no code and is excluded from normal builds by the build tag).
+// Syntax: /verif/DESIGN.md section 2.3.
+
+// ---- C10: clock diffs and checksum ----
+
+//@ func Checksum(mTime uint64, qTick uint64, machTick uint32) (r uint8)
+//@   props C10
+//@   ensures def: r == (mTime + qTick + machTick) % 256
+
+// Snap: shape invariant of a tracer snapshot, derived from the construction
+// sites (sourceTracer.TransitionEnd / calcTrackedStates).
+//@ pred Snap(d *tracerData, syncSchema bool) :=
+//@      len(d.tracked) == len(d.trackedIdxs) && len(d.mTime) < 65536
+//@   && (forall k, l int :: 0 <= k && k < l && l < len(d.trackedIdxs) ==> d.trackedIdxs[k] < d.trackedIdxs[l])
+//@   && (forall k int :: 0 <= k && k < len(d.trackedIdxs) ==> 0 <= d.trackedIdxs[k])
+//@   && ( syncSchema ==> forall k int :: 0 <= k && k < len(d.trackedIdxs) ==> d.trackedIdxs[k] < len(d.mTime))
+//@   && (!syncSchema ==> len(d.mTime) == len(d.tracked))
+
+// P: the index under which tracked state k travels on the wire.
+//@ fn P(d *tracerData, syncSchema bool, k int) int := syncSchema ? d.trackedIdxs[k] : k
+// Prev: the tick the client holds for wire index x (absent = 0).
+//@ fn Prev(lp *tracerData, x int) int := (isnil(lp.mTime) || x >= len(lp.mTime)) ? 0 : lp.mTime[x]
+
+//@ pred DeepUpd(syncSchema bool, data *tracerData, lastPush *tracerData, indexes []uint16, ticks []uint32) :=
+//@      len(indexes) == len(ticks) && len(indexes) <= len(data.tracked)
+//@   && (forall i, j int :: 0 <= i && i < j && j < len(indexes) ==> indexes[i] < indexes[j])
+//@   && (forall j int :: 0 <= j && j < len(indexes) ==>
+//@          (exists k int :: 0 <= k && k < len(data.tracked) && indexes[j] == P(data, syncSchema, k))
+//@          && Prev(lastPush, indexes[j]) != data.mTime[indexes[j]]
+//@          && ticks[j] == u32(data.mTime[indexes[j]] - Prev(lastPush, indexes[j])))
+//@   && (forall k int :: 0 <= k && k < len(data.tracked) &&
+//@          Prev(lastPush, P(data, syncSchema, k)) != data.mTime[P(data, syncSchema, k)] ==>
+//@          exists j int :: 0 <= j && j < len(indexes) && indexes[j] == P(data, syncSchema, k))
+
+//@ func genDeepUpdate(syncSchema bool, data, lastPush *tracerData) (indexes []uint16, ticks []uint32)
+//@   props C10
+//@   requires nn: data != nil && lastPush != nil
+//@   requires snap: Snap(data, syncSchema)
+//@   requires prev: isnil(lastPush.mTime) || len(lastPush.mTime) <= len(data.mTime)
+//@   ensures  upd: DeepUpd(syncSchema, data, lastPush, indexes, ticks)
+//@   loop 1 invariant shape:   len(indexes) == len(ticks) && len(indexes) <= trackedIdx
+//@   loop 1 invariant ordered: forall i, j int :: 0 <= i && i < j && j < len(indexes) ==> indexes[i] < indexes[j]
+//@   loop 1 invariant below:   forall j int :: 0 <= j && j < len(indexes) ==> trackedIdx > 0 && indexes[j] <= P(data, syncSchema, trackedIdx - 1)
+//@   loop 1 invariant sound:   forall j int :: 0 <= j && j < len(indexes) ==>
+//@                        (exists k int :: 0 <= k && k < trackedIdx && indexes[j] == P(data, syncSchema, k))
+//@                        && Prev(lastPush, indexes[j]) != data.mTime[indexes[j]]
+//@                        && ticks[j] == u32(data.mTime[indexes[j]] - Prev(lastPush, indexes[j]))
+//@   loop 1 invariant complete: forall k int :: 0 <= k && k < trackedIdx &&
+//@                        Prev(lastPush, P(data, syncSchema, k)) != data.mTime[P(data, syncSchema, k)] ==>
+//@                        exists j int :: 0 <= j && j < len(indexes) && indexes[j] == P(data, syncSchema, k)
+
+// Shallow clocks: only parity travels. Every state whose parity differs from
+// what the client holds (absent = inactive, tick 0) is reported with tick 1; an
+// entry with tick 0 (first push of an inactive, non-zero state) is a no-op.
+//@ pred ShallowUpd(syncSchema bool, data *tracerData, lastPush *tracerData, indexes []uint16, ticks []uint32) :=
+//@      len(indexes) == len(ticks) && len(indexes) <= len(data.tracked)
+//@   && (forall i, j int :: 0 <= i && i < j && j < len(indexes) ==> indexes[i] < indexes[j])
+//@   && (forall j int :: 0 <= j && j < len(indexes) ==>
+//@          (exists k int :: 0 <= k && k < len(data.tracked) && indexes[j] == P(data, syncSchema, k))
+//@          && ticks[j] == ((Prev(lastPush, indexes[j]) % 2 != data.mTime[indexes[j]] % 2) ? 1 : 0))
+//@   && (forall k int :: 0 <= k && k < len(data.tracked) &&
+//@          Prev(lastPush, P(data, syncSchema, k)) % 2 != data.mTime[P(data, syncSchema, k)] % 2 ==>
+//@          exists j int :: 0 <= j && j < len(indexes) && indexes[j] == P(data, syncSchema, k))
+
+//@ func genShallowUpdate(syncSchema bool, data, lastPush *tracerData) (indexes []uint16, ticks []uint32)
+//@   props C10
+//@   requires nn: data != nil && lastPush != nil
+//@   requires snap: Snap(data, syncSchema)
+//@   requires prev: isnil(lastPush.mTime) || len(lastPush.mTime) <= len(data.mTime)
+//@   ensures  upd: ShallowUpd(syncSchema, data, lastPush, indexes, ticks)
+//@   loop 1 invariant shape:   len(indexes) == len(ticks) && len(indexes) <= trackedIdx
+//@   loop 1 invariant ordered: forall i, j int :: 0 <= i && i < j && j < len(indexes) ==> indexes[i] < indexes[j]
+//@   loop 1 invariant below:   forall j int :: 0 <= j && j < len(indexes) ==> trackedIdx > 0 && indexes[j] <= P(data, syncSchema, trackedIdx - 1)
+//@   loop 1 invariant sound:   forall j int :: 0 <= j && j < len(indexes) ==>
+//@                        (exists k int :: 0 <= k && k < trackedIdx && indexes[j] == P(data, syncSchema, k))
+//@                        && ticks[j] == ((Prev(lastPush, indexes[j]) % 2 != data.mTime[indexes[j]] % 2) ? 1 : 0)
+//@   loop 1 invariant complete: forall k int :: 0 <= k && k < trackedIdx &&
+//@                        Prev(lastPush, P(data, syncSchema, k)) % 2 != data.mTime[P(data, syncSchema, k)] % 2 ==>
+//@                        exists j int :: 0 <= j && j < len(indexes) && indexes[j] == P(data, syncSchema, k)
+
+//@ func calcUpdate(syncSchema bool, data, lastPush *tracerData, shallowClocks bool) (u *MsgSrvUpdate)
+//@   props C10
+//@   requires nn: data != nil && lastPush != nil
+//@   requires snap: Snap(data, syncSchema)
+//@   requires prev: isnil(lastPush.mTime) || len(lastPush.mTime) <= len(data.mTime)
+//@   ensures  nn:       u != nil && fresh(u)
+//@   ensures  qtick:    u.QueueTick == u16(data.queueTick - lastPush.queueTick)
+//@   ensures  mtick:    u.MachTick == u8(data.machTick - lastPush.machTick)
+//@   ensures  checksum: u.Checksum == data.checksum
+//@   ensures  deep:     !shallowClocks ==> DeepUpd(syncSchema, data, lastPush, u.Indexes, u.Ticks)
+//@   ensures  shallow:   shallowClocks ==> ShallowUpd(syncSchema, data, lastPush, u.Indexes, u.Ticks)
+
+// SumAt: total of the ticks addressed to wire index x among the first n entries.
+//@ recfn SumAt(I []uint16, T []uint32, x int, n int) int := n <= 0 ? 0 : SumAt(I, T, x, n - 1) + (I[n - 1] == x ? T[n - 1] : 0)
+
+//@ func (c *Client) clockFromUpdate(update *MsgSrvUpdate, timeBefore am.Time, qTickBefore uint64, machTickBefore uint32) (after am.Time, q uint64, mt uint32)
+//@   props C10
+//@   requires nn:   update != nil
+//@   requires wire: len(update.Indexes) <= len(update.Ticks) && len(timeBefore) < 65536
+//@   ensures  shape:   len(after) == len(timeBefore) && fresh(after)
+//@   ensures  applied: forall x int :: 0 <= x && x < len(after) ==> after[x] == u64(timeBefore[x] + SumAt(update.Indexes, update.Ticks, x, len(update.Indexes)))
+//@   ensures  ticks:   q == u64(qTickBefore + update.QueueTick) && mt == u32(machTickBefore + update.MachTick)
+//@   loop 1 invariant shape:   len(timeAfter) == len(timeBefore) && l == len(timeBefore) && fresh(timeAfter)
+//@   loop 1 invariant applied: forall x int :: 0 <= x && x < len(timeAfter) ==> timeAfter[x] == u64(timeBefore[x] + SumAt(update.Indexes, update.Ticks, x, i))
